@@ -90,6 +90,11 @@ MARKUP["trigger"] = [
     "\n{|\n|a\n|" + ("\n\n" + "dolor sit amet " * 30) * 8 + "\n|-\n|c||d\n|}",
     "\n{|\n|a\n|" + ("<br/>" + "dolor sit amet " * 30 + "<br/>\n\n") * 8 + "\n|-\n|c||d\n|}",
     "\n{|\n|<br/>" + ("lorem ipsum " * 40 + "\n\n<br/>") * 7 + "\n|b<br/>\n|}",
+    # tables inside an image caption (the caption is inline content: rows and cells end up outside a table)
+    "[[File:a.png|thumb|legend\n{|\n|-\n| k || v\n|}\n]]\n", "[[File:b.png|thumb|<table><tr><td>k</td><td>v</td></tr></table>]]\n",
+    "[[File:c.png|thumb|<center><table><tr><td>k</td><td>v</td></tr></table></center>]]\n",
+    "[[File:d.png|thumb|legend <div style=\"font-size:90%\">\n{|\n|-\n| red || Paris\n|-\n| blue || Rome\n|}\n</div>]]\n",
+    "[[File:e.png|thumb|<ul><li>a</li></ul> <center>\n* x\n</center>]]\n",
     "\n{|\n|-\n| item\n| " + "<br/>".join(["lorem ipsum dolor sit amet " * 12] * 6) + "<br/>\n|}",
     "\n{|\n|-\n| <br/>" + "<br/>".join(["lorem ipsum dolor sit amet " * 12] * 7) + "\n| x<br/>y\n|}",
     "\n{|\n|" + "\n".join("* item %d %s" % (i, "text " * 20) for i in range(30)) + "\n|x\n|}",
